@@ -192,6 +192,15 @@ def check(tier):
     driver = vlib.ocaml_build(PROP, use_zutil=False)
     os.makedirs(WORK, exist_ok=True)
     corp = corpus()
+    # feature-sweep programs (harness/src/bin/stsweep.rs): classes, methods, properties, CASE, references, time literals, ...
+    try:
+        sw = vlib.cargo_build("stsweep")
+        sdir = os.path.join(WORK, "sweep_src"); env = vlib.env_base(); env["VERIF_KEEP_ALL_SRC"] = "1"
+        vlib.run([sw, "120" if tier == "quick" else "1500", os.path.join(WORK, "sweep.out"), sdir], env=env, timeout=1200)
+        extra = [open(os.path.join(sdir, f)).read() for f in sorted(os.listdir(sdir)) if f.endswith(".st")]
+        corp = sorted(set(corp + [t for t in extra if 0 < len(t) <= 3000]))
+    except (OSError, vlib.CheckError):
+        pass
     n = 300 if tier == "quick" else 6000
     cases = []
     for k in range(n):
